@@ -132,7 +132,11 @@ class PanicReached(Exception):
 # their result.  Value-level correctness of these functions is exactly what no rule here decides; the G rows
 # say "assuming these meet their contract, the wrappers around them route as documented".
 ARITH_METHODS = {"overflowing_add", "overflowing_sub", "overflowing_mul", "overflowing_neg", "div_rem_unchecked",
-                 "not", "leading_zeros", "trailing_zeros", "bits", "count_ones", "unsigned_abs"}
+                 "not", "leading_zeros", "trailing_zeros", "bits", "count_ones", "unsigned_abs",
+                 "count_zeros", "leading_ones", "trailing_ones", "swap_bytes", "reverse_bits", "bit",
+                 "bitand", "bitor", "bitxor", "long_mul", "unchecked_shl_internal", "unchecked_shr_internal",
+                 "unchecked_shr_pad_internal", "unchecked_rotate_left", "overflowing_pow", "checked_pow", "wrapping_pow",
+                 "power_of_two", "widening_mul"}
 
 
 def ev(t, env, W):
@@ -164,6 +168,15 @@ def ev(t, env, W):
             return W.wrap(TWIN[b.adt], b.v)
         if isinstance(b, tuple) and b and b[0] == "tuple" and isinstance(t[2], int):
             return b[1][t[2]]
+        if isinstance(b, BN) and t[2] == "digits" and b.adt in UNSIGNED:
+            db = DIGIT_BITS[DIGIT[b.adt]]
+            return ("arr", tuple(PI(DIGIT[b.adt], (b.v >> (db * i)) & ((1 << db) - 1)) for i in range(W.n)))
+        return OPAQUE
+    if k == "IX":
+        b = ev(t[1], env, W)
+        i = ev(t[2], env, W)
+        if isinstance(b, tuple) and b and b[0] == "arr" and isinstance(i, PI) and 0 <= i.v < len(b[1]):
+            return b[1][i.v]
         return OPAQUE
     if k == "CT":
         adt = t[1]
@@ -281,6 +294,16 @@ def _atom(t, env, W):
     if not m:
         return OPAQUE
     name = m.group(1)
+    if name == "unchecked_shr_pad_internal" and m.group(2):
+        return _arith(name, label, [ev(a, env, W) for a in t[2]], W, m.group(2))
+    if name in ("checked_sub", "checked_add") and re.match(r"^(u8|u16|u32|u64|usize)::", label):
+        a = [ev(x, env, W) for x in t[2]]
+        if len(a) == 2 and isinstance(a[0], PI) and isinstance(a[1], PI):
+            r = a[0].v - a[1].v if name == "checked_sub" else a[0].v + a[1].v
+            if 0 <= r < (1 << PRIM_BITS[a[0].ty]):
+                return ("Some", PI(a[0].ty, r))
+            return ("None",)
+        return OPAQUE
     if name not in ATOM_METHODS:
         if name in ARITH_METHODS and not m.group(2):
             r = _arith(name, label, [ev(a, env, W) for a in t[2]], W)
@@ -334,8 +357,12 @@ def _atom(t, env, W):
     return OPAQUE
 
 
-def _arith(name, label, args, W):
+def _arith(name, label, args, W, generics=None):
     adt = _adt_of_label(label)
+    if adt is not None and name == "power_of_two" and len(args) == 1 and isinstance(args[0], PI) and adt in UNSIGNED:
+        if 0 <= args[0].v < W.bits(adt):
+            return W.wrap(adt, 1 << args[0].v)
+        return OPAQUE
     if adt is None or label.startswith("<") or not args or not isinstance(args[0], BN) or args[0].adt != adt:
         return OPAQUE
     w = W.bits(adt)
@@ -357,6 +384,42 @@ def _arith(name, label, args, W):
         return ("tuple", (W.wrap(adt, x // args[1].v), W.wrap(adt, x % args[1].v)))
     if name == "not" and len(args) == 1:
         return W.wrap(adt, ~x)
+    if name in ("bitand", "bitor", "bitxor") and len(args) == 2 and isinstance(args[1], BN) and args[1].adt == adt:
+        m_ = (1 << w) - 1
+        xa, ya = x & m_, args[1].v & m_
+        return W.wrap(adt, xa & ya if name == "bitand" else (xa | ya if name == "bitor" else xa ^ ya))
+    if not signed and len(args) == 2 and isinstance(args[1], BN) and args[1].adt == adt:
+        y = args[1].v
+        if name == "long_mul":
+            return ("tuple", (W.wrap(adt, x * y), x * y > hi))
+        if name == "widening_mul":
+            return ("tuple", (W.wrap(adt, x * y), W.wrap(adt, (x * y) >> w)))
+    if not signed and len(args) == 2 and isinstance(args[1], PI):
+        sft = args[1].v
+        if name == "unchecked_shl_internal" and 0 <= sft < w:
+            return W.wrap(adt, x << sft)
+        if name == "unchecked_shr_internal" and 0 <= sft < w:
+            return W.wrap(adt, x >> sft)
+        if name == "unchecked_shr_pad_internal" and 0 <= sft < w and generics:
+            neg = "true" in generics
+            r = x >> sft
+            if neg:
+                r |= ((1 << sft) - 1) << (w - sft)
+            return W.wrap(adt, r)
+        if name == "unchecked_rotate_left" and 0 <= sft <= w:
+            sft %= w
+            return W.wrap(adt, (x << sft) | (x >> (w - sft)) if sft else x)
+        if name in ("overflowing_pow", "checked_pow", "wrapping_pow") and sft >= 0 and (x <= 1 or sft <= 4 * w):
+            r = x ** sft if x > 1 else (1 if (sft == 0 or x == 1) else 0)
+            if name == "overflowing_pow":
+                return ("tuple", (W.wrap(adt, r), r > hi))
+            if name == "wrapping_pow":
+                return W.wrap(adt, r)
+            return ("Some", W.wrap(adt, r)) if r <= hi else ("None",)
+        if name == "bit" and 0 <= sft < w:
+            return bool((x >> sft) & 1)
+    if not signed and name == "power_of_two" and False:
+        return OPAQUE
     if name == "unsigned_abs" and signed and len(args) == 1:
         return W.wrap(TWIN[adt], abs(x))
     if not signed and len(args) == 1:
@@ -368,6 +431,17 @@ def _arith(name, label, args, W):
             return PI("u32", w if x == 0 else (x & -x).bit_length() - 1)
         if name == "count_ones":
             return PI("u32", bin(x).count("1"))
+        if name == "count_zeros":
+            return PI("u32", w - bin(x).count("1"))
+        if name == "leading_ones":
+            return PI("u32", w - (x ^ ((1 << w) - 1)).bit_length())
+        if name == "trailing_ones":
+            y = x ^ ((1 << w) - 1)
+            return PI("u32", w if y == 0 else (y & -y).bit_length() - 1)
+        if name == "swap_bytes":
+            return W.wrap(adt, int.from_bytes(x.to_bytes(w // 8, "little"), "big"))
+        if name == "reverse_bits":
+            return W.wrap(adt, int(bin(x)[2:].zfill(w)[::-1], 2))
     return OPAQUE
 
 
